@@ -210,6 +210,7 @@ def generate(rng, tier):
                 p["m"] = rng.randrange(1, 4)
     case["params"] = p
     case["seq_as"] = rng.choice(["list", "list", "tuple"])
+    case["falsy_objective"] = rng.random() < 0.04
     case["seed"] = rng.choice([None, None, 0, 1, 7, 123456789, 2**31])
     case["rng"] = seams.gen_rng_case(rng, p_script=0.3, horizon=200)
     case["interval"] = rng.choice([0, 1, 1, 1, 2, 3, 7])
@@ -298,6 +299,20 @@ def run_solver(case, policy, negate=False, minimize=None, entropy_salt=0):
         def grad(x):
             g = func_grad(terms, x)
             return [sg * gi * scale for gi in g]
+
+    if case.get("falsy_objective"):
+        # the objective is a callable OBJECT whose truth value is False (a loss over a container that reports length 0, a
+        # ctypes / numpy-style wrapper): "was an objective given?" must be asked with `is not None`, not with truthiness
+        inner = f
+
+        class _Loss:
+            def __call__(self, x):
+                return inner(x)
+
+            def __len__(self):
+                return 0
+
+        f = _Loss()
 
     kw = {"minimize": minimize, "on_progress": prog if case["interval"] else None, "progress_interval": case["interval"]}
     seed = case["seed"]
